@@ -70,12 +70,18 @@ PROPS['C05'] = Prop(
     outside='histories longer than K steps; more than RA re-entrant operations per history; listener changes issued from inside listeners (those follow C02); threads (C06)',
     assumptions=['every listener/predicate call is checked against the reference model at the moment it happens (incremental oracle)'])
 
+def _cmw(name, k, **kw):
+    return Run(name, 'copymove.cpp', {'KK': k, 'OBJ': 0, 'WRAPC': None}, covers=11, optional_covers=(6, 7, 8, 9, 10), bounds='copies, moves, swaps and assignments (C10 alphabet, K=%d) of CallbackLists whose source object has its generation counter at a symbolic position within 8 of the wrap: additions, copies of it and assignments TO it straddle the wrap' % k, **kw)
+def _ftw(name, f=1, **kw):
+    return Run(name, 'faults.cpp', {'CLASS': 0, 'WRAPC': None}, exc=True, own_new=True, faults=f, covers=6, optional_covers=(3, 5), native=('clang-O1-san', 'clang-O1'), bounds='C09 fault alphabet on a CallbackList (F=%d) with the generation counter 0..2 additions before the wrap: a failed addition at the wrap must leave the list as it was' % f, **kw)
 PROPS['C19'] = Prop(
     quick=[Run('cl_history_wrap_k3', 'cl_history.cpp', {'KK': 3, 'WRAP': 3}, covers=9, optional_covers=(3, 4),
                bounds='as C01 K=3, with the generation counter started at a symbolic c0 in [2^32-1-3, 2^32-1]: the solver places the wrap at any of the additions'),
            Run('cl_nested_wrap_a2', 'cl_nested.cpp', {'N0': 2, 'AA': 2, 'DD': 2, 'WRAP': 3}, covers=8, optional_covers=(5,),
-               bounds='as C02 with 2 initial callbacks, A=2 nested actions, counter started at symbolic c0 within 3 of the wrap; invocations in progress at the wrap are relaxed as the property allows, every later invocation must be exact')],
-    thorough=[Run('cl_history_wrap_k4', 'cl_history.cpp', {'KK': 4, 'WRAP': 4}, covers=9, budget_s=1700, bounds='as C01 K=4, c0 within 4 of the wrap'),
+               bounds='as C02 with 2 initial callbacks, A=2 nested actions, counter started at symbolic c0 within 3 of the wrap; invocations in progress at the wrap are relaxed as the property allows, every later invocation must be exact'),
+           _cmw('copymove_cl_wrap_k3', 3), _ftw('faults_cl_wrap')],
+    thorough=[_cmw('copymove_cl_wrap_k4', 4, budget_s=1700), _ftw('faults_cl_wrap_f2', 2, budget_s=1700),
+              Run('cl_history_wrap_k4', 'cl_history.cpp', {'KK': 4, 'WRAP': 4}, covers=9, budget_s=1700, bounds='as C01 K=4, c0 within 4 of the wrap'),
               Run('cl_nested_wrap_a3', 'cl_nested.cpp', {'N0': 3, 'AA': 3, 'DD': 2, 'WRAP': 4}, covers=8, budget_s=1700, bounds='as C02 with 3 initial callbacks, A=3, c0 within 4 of the wrap')],
     outside='wrap placed further than W additions from the start of the history; copies/moves/swaps across the wrap are exercised in C10 (counters far apart)',
     assumptions=['the counter is positioned by writing the private member currentCounter through the test-style private->public include (no repo hook)'])
